@@ -599,10 +599,10 @@ class ProducerContract(Contract):
         if closing is not None:
             st.oblige('yield%d:exception-%s-while-being-closed' % (closing[0], exc.cls.__name__ if exc.cls else 'unknown'), BoolVal(False))
             return
-        from .engine import exc_matches
+        from .engine import exc_matches, spec_matches
         matched = None
         for r in self.p_raises(ip, a, old, g):
-            if exc_matches(exc, r.cls) is True and (r.when is None or st.feasible(r.when)):
+            if spec_matches(exc, r.cls) is True and (r.when is None or st.feasible(r.when)):
                 matched = r
                 break
         if matched is None:
